@@ -5,6 +5,7 @@ import (
 	"fmt"
 	"sort"
 	"strings"
+	"sync/atomic"
 	"testing"
 	"time"
 
@@ -23,6 +24,8 @@ import (
 // TestSlowConsumer: many distinct sources are submitted while the client does not read answers (a cloud handler busy
 // with its downstream); the answers pile up inside the provider. When the client reads again - in drawn bursts - it
 // must receive exactly one answer per submitted source, each with what the provider said about that source.
+var slowPatienceMs int64 = 30000
+
 func TestSlowConsumer(t *testing.T) {
 	rapid.Check(t, func(t *rapid.T) {
 		prov := &provider{max: rapid.SampledFrom([]int{1, 2, 5, 20}).Draw(t, "max-batch"), force: -1}
@@ -46,13 +49,27 @@ func TestSlowConsumer(t *testing.T) {
 			t.Fatalf("refresh ticker not created")
 		}
 		desc := fmt.Sprintf("max-batch %d script %v sources %d read-while-submitting %d", prov.max, prov.script, n, readBefore)
+		// one case in forty: the provider does not come back for 5.3 s of real time (a cloud API under pressure); it then says
+		// what its script says, and every source of every call still gets its answer
+		if rapid.IntRange(0, 39).Draw(t, "provider-stalls-for-seconds") == 23 { // (rapid favours the ends of a range)
+			hold := make(chan struct{})
+			prov.mu.Lock()
+			prov.hold = hold
+			prov.mu.Unlock()
+			stop := time.AfterFunc(5300*time.Millisecond, func() { close(hold) })
+			defer stop.Stop()
+			desc += " provider-stalls-5.3s"
+		}
+		patience := func() time.Duration { return time.Duration(atomic.LoadInt64(&slowPatienceMs)) * time.Millisecond }
+		impatient := func() { atomic.StoreInt64(&slowPatienceMs, 3000) } // after a first failure (rapid shrinking it) wait 3 s instead of 30
 		var got []answer
 		read := func(k int, why string) {
 			for i := 0; i < k; i++ {
 				select {
 				case info := <-ccp.InfoSource():
 					got = append(got, answer{info.IP, info.Instance})
-				case <-time.After(30 * time.Second):
+				case <-time.After(patience()):
+					impatient()
 					vt.Fail(t, "C12:answer-missing", "%d answers arrived, %d sources were submitted (%s; waited 30s %s)", len(got), n, desc, why)
 				}
 			}
@@ -94,7 +111,7 @@ func TestSlowConsumer(t *testing.T) {
 			}
 		}
 		// the provider has said something about every source: all answers are waiting (or on their way)
-		for deadline := time.Now().Add(30 * time.Second); ; time.Sleep(200 * time.Microsecond) {
+		for deadline := time.Now().Add(patience()); ; time.Sleep(200 * time.Microsecond) {
 			prov.mu.Lock()
 			k := len(prov.answers)
 			prov.mu.Unlock()
@@ -102,6 +119,7 @@ func TestSlowConsumer(t *testing.T) {
 				break
 			}
 			if time.Now().After(deadline) {
+				impatient()
 				vt.Fail(t, "C12:never-queried", "the provider was asked about %d of %d submitted sources within 30s (%s)", k, n, desc)
 			}
 		}
